@@ -84,8 +84,8 @@ def build(chk, tier, share=1.0):
     rnd = random.Random(sd * 7 + 3)
     recs = []
     nsim = max(50, int((6000 if thorough else 500) * share))
-    for valid_only, maxlen, s in (("TRUE", "24", sd + 11), ("FALSE", "14", sd + 12)):
-        c = dict(c06.CONST_NONE, History="TRUE", MaxLen=maxlen, EmitMode='"docs"', ValidOnly=valid_only)
+    for valid_only, maxlen, s, onekw in (("TRUE", "24", sd + 11, "FALSE"), ("FALSE", "14", sd + 12, "FALSE"), ("FALSE", "12", sd + 13, "TRUE")):
+        c = dict(c06.CONST_NONE, History="TRUE", MaxLen=maxlen, EmitMode='"docs"', ValidOnly=valid_only, OneKw=onekw)
         r = tlc_ok(tlc("JSightTree", "Tree_docs.cfg", consts=c, simulate=nsim, depth=int(maxlen) + 8, tlc_seed=s,
                        workers=8 if thorough else 4, timeout=3000), "JSightTree walks for macro forms")
         chk.add_tlc(r)
